@@ -463,6 +463,10 @@ class Interp(object):
             return a == b
         if a is b:
             return True
+        if self.externals is not None:
+            r = self.externals.identical(self, a, b)
+            if r is not None:
+                return r
         if isinstance(a, (Inst, PyList, PyDict, Opaque)) or isinstance(b, (Inst, PyList, PyDict, Opaque)):
             if self.externals is not None:
                 r = self.externals.identical(self, a, b)
@@ -677,8 +681,11 @@ class Interp(object):
             raise OutOfSubset("yield outside generator frame")
         c = f.contract
         if c is not None and f.verifying and not getattr(f, "suppress_yield_checks", False):
+            extra = {"item": v}
+            for k_, v_ in getattr(f, "loop_index", {}).items():
+                extra["_it%d" % k_] = v_
             for name, expr in c.yields_each_:
-                self.path.oblige(self.oblname("yields_each/" + name), self.spec(expr, f.entry_env, extra={"item": v}), kind="yield")
+                self.path.oblige(self.oblname("yields_each/" + name), self.spec(expr, f.entry_env, extra=extra), kind="yield")
         f.ytrace.add_item(v)
         self.path.event("yield", v)
 
